@@ -5,6 +5,7 @@ import (
 	"flag"
 	"fmt"
 	"os"
+	"os/exec"
 	"path/filepath"
 	"runtime"
 	"sort"
@@ -13,6 +14,8 @@ import (
 
 	"golang.org/x/tools/go/ssa"
 )
+
+var solverDiffGlobal []string
 
 var (
 	repoDir  = "/repo"
@@ -37,6 +40,8 @@ func main() {
 		os.Exit(cmdSelftest(os.Args[2:]))
 	case "replay":
 		os.Exit(cmdReplay(os.Args[2:]))
+	case "solver-diff":
+		os.Exit(cmdSolverDiff(os.Args[2:]))
 	default:
 		fmt.Fprintln(os.Stderr, "unknown command", os.Args[1])
 		os.Exit(2)
@@ -130,6 +135,13 @@ func cmdCheck(args []string) int {
 	}
 	if *tier == "thorough" {
 		cfg.tier = 1
+		if cfg.logQueries == "" && *only == "" {
+			// sample of queries for the cross-solver diff
+			os.MkdirAll(filepath.Join(verifDir, "work"), 0o755)
+			cfg.logQueries = filepath.Join(verifDir, "work", "diff_"+id)
+			cfg.logOnlyFirst = true
+			cfg.logLimit = 300
+		}
 	}
 	if *trace {
 		cfg.workers = 1
@@ -332,6 +344,27 @@ func cmdCheck(args []string) int {
 		fmt.Fprintf(os.Stderr, "INCOMPLETE: some paths unsupported/inconclusive/bound-exceeded or budget exhausted\n")
 		rc = 4
 	}
+	var solverDiff []string
+	if cfg.logOnlyFirst {
+		tr := cfg.logQueries + ".0.smt2"
+		for _, sv := range []string{"z3-new", "cvc5"} {
+			out, _ := exec.Command(os.Args[0], "solver-diff", tr, sv, "300").CombinedOutput()
+			line := strings.TrimSpace(string(out))
+			if i := strings.LastIndex(line, "solver-diff:"); i >= 0 {
+				line = line[i:]
+			}
+			solverDiff = append(solverDiff, line)
+			fmt.Fprintln(os.Stderr, "  "+line)
+			if strings.Contains(string(out), "DISAGREEMENT") {
+				fmt.Fprintln(os.Stderr, "CHECK-ERROR: solvers disagree on a logged query")
+				if rc == 0 {
+					rc = 2
+				}
+			}
+		}
+		os.Remove(tr)
+	}
+	solverDiffGlobal = solverDiff
 	if !*noEvidence && *only == "" {
 		writeEvidence(id, *tier, seed, spec, hres, all, totalStats, time.Since(t0).Seconds(), loadS, nviol, vioOut, exhaustive, knownHit)
 	}
@@ -492,6 +525,7 @@ func writeEvidence(id, tier string, seed int, spec *checkSpec, hres []harnessRes
 		"known_findings_hit":   kf,
 		"reach_labels":         all.reached,
 		"trusted_base":         []string{"gosym interpreter (/verif/engine)", "z3 4.8.12", "harness models named under stubs", "go/packages + go/ssa (x/tools v0.29.0)"},
+		"solver_diff":          solverDiffGlobal,
 		"stubs":                spec.Stubs,
 		"outside_bounds":       spec.Out,
 	}
